@@ -8,6 +8,7 @@ import (
 	"fmt"
 	"net"
 	"os"
+	"strings"
 	"sync"
 	"testing"
 	"testing/cryptotest"
@@ -54,11 +55,28 @@ type World struct {
 	Trace   []string
 	Verbose bool
 	NoSkew  bool
+	closers []func()
 }
 
 // Run executes body inside a fresh bubble with the given seed.
 // A panic inside the bubble propagates to the caller (and kills the process unless recovered there).
 func Run(t *testing.T, seed uint64, body func(w *World)) {
+	_ = RunLeak(t, seed, body)
+}
+
+// RunLeak is Run, but reports (instead of propagating) the synctest panic raised when goroutines are
+// still blocked inside the bubble after body and the final cleanup have finished: a goroutine leak.
+func RunLeak(t *testing.T, seed uint64, body func(w *World)) (leak string) {
+	defer func() {
+		if r := recover(); r != nil {
+			msg := fmt.Sprint(r)
+			if strings.Contains(msg, "blocked goroutines remain") {
+				leak = msg
+				return
+			}
+			panic(r)
+		}
+	}()
 	synctest.Test(t, func(t *testing.T) {
 		cryptotest.SetGlobalRandom(t, seed)
 		w := &World{
@@ -71,7 +89,36 @@ func Run(t *testing.T, seed uint64, body func(w *World)) {
 			Verbose:   os.Getenv("VERIF_VERBOSE") != "",
 		}
 		body(w)
+		w.Cleanup()
 	})
+	return ""
+}
+
+// Cleanup closes every endpoint that is still open, discards the network and lets goroutines finish.
+func (w *World) Cleanup() {
+	w.mu.Lock()
+	closers := append([]func(){}, w.closers...)
+	w.closers = nil
+	w.mu.Unlock()
+	for _, c := range closers {
+		go c()
+	}
+	synctest.Wait()
+	w.mu.Lock()
+	w.inflight = nil
+	conns := w.conns
+	w.mu.Unlock()
+	for _, c := range conns {
+		_ = c.Close()
+	}
+	synctest.Wait()
+}
+
+// OnCleanup registers a function run (in its own goroutine) when the world is torn down.
+func (w *World) OnCleanup(f func()) {
+	w.mu.Lock()
+	w.closers = append(w.closers, f)
+	w.mu.Unlock()
 }
 
 // Now returns fake time elapsed since the world started.
